@@ -10,9 +10,13 @@ package main
 import (
 	"bufio"
 	"bytes"
+	"encoding/hex"
+	"encoding/json"
 	"fmt"
 	"io"
 	"os"
+	"path/filepath"
+	"sort"
 	"strings"
 
 	"github.com/ipfs/go-cid"
@@ -25,16 +29,34 @@ import (
 
 // properties whose batch generators emit serve_bytes cases (VERIF_SERVEBYTES=all|none|C08,… overrides);
 // one batch in serveBytesEvery is sent
-var serveBytesProps = map[string]bool{"C08": true}
+var serveBytesProps = map[string]bool{"C08": true, "C11": true}
 var serveBytesEvery = 4
 var serveBytesMax = 800 // at most this many recorded requests per run
 var serveBytesPerFile = 16
 
+// the C11 batches run in a child process (sub-command c11child): it writes each case to a file of the
+// output directory, the parent's flushServeBytes collects them
+func sbChildOut() (string, bool) {
+	if len(os.Args) < 2 || os.Args[1] != "c11child" {
+		return "", false
+	}
+	for i, a := range os.Args {
+		if a == "-out" && i+1 < len(os.Args) {
+			return os.Args[i+1], true
+		}
+	}
+	return ".", true
+}
+
 func serveBytesEnabled() bool {
-	if len(os.Args) < 3 || os.Args[1] != "gen" {
+	prop := ""
+	if _, child := sbChildOut(); child {
+		prop = "C11"
+	} else if len(os.Args) >= 3 && os.Args[1] == "gen" {
+		prop = os.Args[2]
+	} else {
 		return false
 	}
-	prop := os.Args[2]
 	switch v := os.Getenv("VERIF_SERVEBYTES"); v {
 	case "":
 		return serveBytesProps[prop]
@@ -170,7 +192,6 @@ func serveBytesHook(b *Batch, names []string) {
 		dids = append(dids, k.did.Bytes())
 		ks = append(ks, fmt.Sprintf("(%d, %s, %s)", k.id, hx(k.did.Bytes()), hxs(k.alg)))
 	}
-	sbDids = append(sbDids, dids)
 	for i, s := range w.links {
 		if cd, err := cid.Decode(s); err == nil {
 			ls = append(ls, fmt.Sprintf("(%s, %d)", hx(cd.Bytes()), i+1))
@@ -178,8 +199,18 @@ func serveBytesHook(b *Batch, names []string) {
 	}
 	sortStrings(ds)
 	sortStrings(ss)
-	sbCases = append(sbCases, fmt.Sprintf("{| sb_body := %s;\n sb_digests := [%s];\n sb_links := [%s];\n sb_keys := [%s];\n sb_sigs := [%s];\n sb_ext := [%s];\n sb_case := %s |}",
-		hx(ch.body), strings.Join(ds, "; "), strings.Join(ls, "; "), strings.Join(ks, "; "), strings.Join(ss, "; "), strings.Join(ext, "; "), bcase))
+	caseStr := fmt.Sprintf("{| sb_body := %s;\n sb_digests := [%s];\n sb_links := [%s];\n sb_keys := [%s];\n sb_sigs := [%s];\n sb_ext := [%s];\n sb_case := %s |}",
+		hx(ch.body), strings.Join(ds, "; "), strings.Join(ls, "; "), strings.Join(ks, "; "), strings.Join(ss, "; "), strings.Join(ext, "; "), bcase)
+	if out, child := sbChildOut(); child {
+		var hd []string
+		for _, d := range dids {
+			hd = append(hd, fmt.Sprintf("%x", d))
+		}
+		writeJSON(out, fmt.Sprintf("sbcase_%06d.json", w.ID), map[string]any{"case": caseStr, "dids": hd})
+		return
+	}
+	sbCases = append(sbCases, caseStr)
+	sbDids = append(sbDids, dids)
 	sbStats["requests"]++
 	if obs.ExecErr != "" {
 		sbStats["requests_failed_as_a_whole"]++
@@ -224,6 +255,28 @@ func sbBlocksOf(body []byte) [][]byte {
 
 // flushServeBytes writes sbytes_<prop>_NN.v (called by writeBatchCases).
 func flushServeBytes(dir, prefix string) error {
+	// cases written by a child process
+	if files, _ := filepath.Glob(filepath.Join(dir, "sbcase_*.json")); len(files) > 0 {
+		sort.Strings(files)
+		for _, f := range files {
+			var rec struct {
+				Case string   `json:"case"`
+				Dids []string `json:"dids"`
+			}
+			if b, err := os.ReadFile(f); err == nil && json.Unmarshal(b, &rec) == nil {
+				var dd [][]byte
+				for _, h := range rec.Dids {
+					if d, err := hex.DecodeString(h); err == nil {
+						dd = append(dd, d)
+					}
+				}
+				sbCases = append(sbCases, rec.Case)
+				sbDids = append(sbDids, dd)
+				sbStats["requests"]++
+			}
+			os.Remove(f)
+		}
+	}
 	if len(sbCases) == 0 {
 		return nil
 	}
